@@ -74,7 +74,8 @@ Definition vested (st en orig t : Z) : Z :=
 Inductive err :=
 | EInvalidAddr | EInvalidParams | ELicenseExists | EAccountExists | EInvalidCoins | EInsufficientFunds
 | ENoLicense | ENoAccount | EVesting | EUnauthorized | ENoFeegranter | ENoFunder | EInsufficientBalance
-| ENoContract | EWrongContract | EGrantExists | ENotFound.
+| ENoContract | EWrongContract | EGrantExists | ENotFound
+| EInjected.   (* an error returned by a fault-injecting collaborator (LightNodeExt.v) *)
 
 Inductive outcome := Ok | Err (e : err) | Panic.
 
